@@ -7,7 +7,9 @@ CFG = {'assumptions': ['the section is in the property domain: 0 <= off, 0 <= n,
         'iohelper.AtToWriter': 'iohelper.AtToWriter + Write/WriteAt/Seek/Size through the interfaces of the returned value',
         'iohelper.AtToReader': 'iohelper.AtToReader + Read (io.SectionReader of the Go library underneath) over the in-memory file of the harness',
         'iohelper.File': 'iohelper.NewSectionWriter / AtToWriter call sequence over the in-memory file of the harness, the file content afterwards, '
-                         'then iohelper.AtToReader + Read over the same file'},
+                         'then iohelper.AtToReader + Read over the same file',
+        'iohelper.TwoSections': 'two iohelper.NewSectionWriter over ONE in-memory file, their Write/WriteAt/Seek/Size calls interleaved, '
+                                'and the file content afterwards'},
  'rule': 'one case = one whole call sequence on a fresh section over a scripted mock io.WriterAt; every return value and '
          'every (absolute offset, bytes) the mock receives is observed per call. Cases = all sequences of 1..2 calls from '
          'a 36-call alphabet followed by Write(2) on sections n in 0..3 with the first underlying call answered by '
@@ -24,5 +26,8 @@ CFG = {'assumptions': ['the section is in the property domain: 0 <= off, 0 <= n,
                   'iohelper.File = a section-writer call sequence (1..14 calls, positions below ~10^4) over an in-memory file with 0..400 initial bytes, '
                   'the file content afterwards and a read-back through AtToReader from the section start / nearby / 0 / the file end; non-trivial when '
                   'at least one byte was stored and one read back; key = section class x store events (gap zero-filled / extends / inside) x writer '
-                  'events x reader events',
+                  'events x reader events. '
+                  'iohelper.TwoSections = two section writers over one in-memory file with interleaved calls (2..24 calls, sections adjacent / '
+                  'disjoint / overlapping / identical / second before first, n incl. 0 and 2^63-1-off, shared fault script); non-trivial when both '
+                  'writers stored bytes and the calls switched writer at least twice; key = section configuration x store events x writer events',
  'shrink_s': 30}
